@@ -76,8 +76,11 @@ def gen_history(rng, name, n_ops, queries):
         elif r < 0.78:
             ops.append({"op": "search", "q": rng.choice(queries), "pi": rng.choice([0, 0, 1, 2, 3, 4, 5, 6]),
                         "simple": False})
-        elif r < 0.95:
+        elif r < 0.93:
             ops.append(_flush(rng))
+        elif r < 0.96:
+            ops.append({"op": "flush"})
+            ops.append({"op": "legacy"})
         else:
             ops.append({"op": "reload"})
     ops += [{"op": "flush"}, {"op": "reload"}]
@@ -127,6 +130,11 @@ def fixed_histories(queries, tier):
         for d in range(4):
             hs.append({"name": f"sweep-{variant}-deletes-{d}", "nt": NT, "ni": NI,
                        "ops": base + mid + [{"op": "flush", "deletes": d, "crash_in_deletes": True}] + tail})
+    # restart from a pre-manifest (legacy) layout, then every kind of flush on top of it
+    for fl in ({"op": "flush"}, {"op": "flush", "mode": "crash_after", "at": 0}, {"op": "flush", "mode": "crash_before", "at": 1},
+               {"op": "flush", "deletes": 1, "crash_in_deletes": True}):
+        hs.append({"name": f"legacy-{fl.get('mode', 'clean')}-{fl.get('deletes', '')}", "nt": NT, "ni": NI,
+                   "ops": base + [{"op": "legacy"}] + grow + [fl] + tail})
     # a large vocabulary in one document: the overflow bucket overflows as well
     hs.append({"name": "double-overflow", "nt": 8, "ni": NI, "ops": [
         {"op": "insert", "id": 1, "bag": [1, 1, 1, 1, 1, 1, 1, 1]}, {"op": "flush"}, {"op": "reload"},
